@@ -468,15 +468,15 @@ func fieldTest(cond ssa.Value) (f ssa.Value, refine func(St, bool) St) {
 				}
 			}
 			if pidx >= 0 {
-				yes := predicateYes(h, pidx, predIdx)
-				if yes != stTop {
+				// either answer may be the informative one: a classifier that says yes to lists of any kind and to strings tells
+				// nothing about the field where it says yes, and "no list, no string" where it says no
+				yes, no := predicateYes(h, pidx, predIdx), predicateNo(h, pidx, predIdx)
+				if yes != stTop || no != stTop {
 					return c.Call.Args[pidx], func(s St, edge bool) St {
 						if edge != neg {
-							s.K &= yes.K
-							s.R &= yes.R
-							s.L &= yes.L
+							return meetSt(s, yes)
 						}
-						return s
+						return meetSt(s, no)
 					}
 				}
 			}
@@ -485,13 +485,23 @@ func fieldTest(cond ssa.Value) (f ssa.Value, refine func(St, bool) St) {
 	return nil, nil
 }
 
-var predicateYesMemo = map[*ssa.Function]map[[2]int]St{}
+var predicateYesMemo = map[*ssa.Function]map[[3]int]St{}
 var predicateYesBusy = map[*ssa.Function]bool{}
 
 // predicateYes: an over-approximation of the state of parameter pidx of the bool function h on the calls where h returns true.
-func predicateYes(h *ssa.Function, pidx int, resIdx int) St {
+func predicateYes(h *ssa.Function, pidx int, resIdx int) St { return predicateWhen(h, pidx, resIdx, true) }
+
+// predicateNo: the same for the calls where h returns false (`shape, ok := g.classify(f); if ok { return ... }`: what follows the
+// early return is reached by the fields the classifier turned down).
+func predicateNo(h *ssa.Function, pidx int, resIdx int) St { return predicateWhen(h, pidx, resIdx, false) }
+
+func predicateWhen(h *ssa.Function, pidx int, resIdx int, want bool) St {
+	memoKey := [3]int{pidx, resIdx, 0}
+	if want {
+		memoKey[2] = 1
+	}
 	if m := predicateYesMemo[h]; m != nil {
-		if st, ok := m[[2]int{pidx, resIdx}]; ok {
+		if st, ok := m[memoKey]; ok {
 			return st
 		}
 	}
@@ -523,7 +533,7 @@ func predicateYes(h *ssa.Function, pidx int, resIdx int) St {
 		}
 		switch x := v.(type) {
 		case *ssa.Const:
-			if x.Value != nil && x.Value.Kind() == constant.Bool && !constant.BoolVal(x.Value) {
+			if x.Value != nil && x.Value.Kind() == constant.Bool && constant.BoolVal(x.Value) != want {
 				return stBot
 			}
 			return stTop
@@ -544,7 +554,7 @@ func predicateYes(h *ssa.Function, pidx int, resIdx int) St {
 			return out
 		}
 		if f, refine := fieldTest(v); f != nil && stripIdentity(f) == param {
-			return refine(stTop, true)
+			return refine(stTop, want)
 		}
 		return stTop
 	}
@@ -565,9 +575,9 @@ func predicateYes(h *ssa.Function, pidx int, resIdx int) St {
 		out = joinSt(out, st)
 	}
 	if predicateYesMemo[h] == nil {
-		predicateYesMemo[h] = map[[2]int]St{}
+		predicateYesMemo[h] = map[[3]int]St{}
 	}
-	predicateYesMemo[h][[2]int{pidx, resIdx}] = out
+	predicateYesMemo[h][memoKey] = out
 	return out
 }
 
